@@ -123,7 +123,8 @@ def _xarray(
         else:
             continue
 
-        if axes == axes_mapping[name]:
+        if axes == axes_mapping[name] and np.ndim(array) == len(axes):
+            # (an array that is only partially mapped, e.g. `x[i, :]`, cannot be a coordinate)
             coord_mapping[axes][name].append(array)
 
     coords = {}
